@@ -145,7 +145,12 @@ func (p *credProp) Gen(r *Rand, tier string, idx int) any {
 			op.Cred = CredSpec{U: pick(r, []string{"", "alice", "bob", "üñí", "a:b"}), P: pick(r, []string{"", "secret", "p:w:d", "pässwort", " "}),
 				R: pick(r, []string{"", "", "refresh-1"}), A: pick(r, []string{"", "", "access-1"})}
 			op.Cred.P += fmt.Sprint(i) // unique values make every read attributable
-		case 3, 4:
+		case 3:
+			op.Op = "get"
+			if cp.Tasks == 1 && r.Chance(0.4) {
+				op.Op = "reput" // Get then Put: two calls, only used in sequential histories
+			}
+		case 4:
 			op.Op = "get"
 		default:
 			op.Op = "delete"
@@ -161,7 +166,7 @@ func (p *credProp) Gen(r *Rand, tier string, idx int) any {
 	if cp.Tasks == 1 && r.Chance(0.6) {
 		var cands []int
 		for i, o := range cp.Ops {
-			if o.Op != "get" {
+			if o.Op != "get" && o.Op != "reput" {
 				cands = append(cands, i)
 			}
 		}
@@ -279,6 +284,13 @@ type credRes struct {
 
 func (m *credModel) apply(op CredOp) credRes {
 	switch op.Op {
+	case "reput":
+		// log in again with what the store currently answers for this address
+		cur := m.apply(CredOp{Op: "get", Addr: op.Addr})
+		if cur.Err != "" || cur.Cred == (CredSpec{}) {
+			return cur
+		}
+		return m.apply(CredOp{Op: "put", Addr: op.Addr, Cred: cur.Cred})
 	case "put":
 		if strings.Contains(op.Cred.U, ":") {
 			return credRes{Err: "badformat"}
@@ -343,6 +355,12 @@ func (m *credModel) apply(op CredOp) credRes {
 func execCred(fs *credentials.FileStore, op CredOp) credRes {
 	ctx := context.Background()
 	switch op.Op {
+	case "reput":
+		c, err := fs.Get(ctx, op.Addr)
+		if err != nil || c == auth.EmptyCredential {
+			return credRes{Err: credErr(err), Cred: CredSpec{U: c.Username, P: c.Password, R: c.RefreshToken, A: c.AccessToken}}
+		}
+		return credRes{Err: credErr(fs.Put(ctx, op.Addr, c))}
 	case "put":
 		err := fs.Put(ctx, op.Addr, auth.Credential{Username: op.Cred.U, Password: op.Cred.P, RefreshToken: op.Cred.R, AccessToken: op.Cred.A})
 		return credRes{Err: credErr(err)}
@@ -461,6 +479,7 @@ func writeInitial(dir, initial string) string {
 func (p *credProp) sequential(rc *RunCtx, sc *Scenario, cp *CredParams, info *RunInfo) *Verdict {
 	var v *Verdict
 	// one execution; crashK>0 freezes the disk before the k-th mutating op of the victim
+	var retried credRes
 	run := func(dir string, crashK int, eio bool) (res simrt.Result, nmut int, before, after *credModel, path string) {
 		path = writeInitial(dir, cp.Initial)
 		fs, err := credentials.NewFileStore(path)
@@ -489,6 +508,11 @@ func (p *credProp) sequential(rc *RunCtx, sc *Scenario, cp *CredParams, info *Ru
 					got := execCred(fs, op)
 					simos.SetFailAtMut(0)
 					nmut = simos.MutCount() - m0
+					if crashK > 0 && eio {
+						// the caller tries again once the disk behaves: now the operation must take effect
+						retried = execCred(fs, op)
+						return
+					}
 					if crashK > 0 {
 						return
 					}
@@ -591,6 +615,12 @@ func (p *credProp) sequential(rc *RunCtx, sc *Scenario, cp *CredParams, info *Ru
 		}
 		e1 := docMatches(pathE, before, cp.Initial)
 		e2 := docMatches(pathE, after, cp.Initial)
+		if retried.Err == "" && e2 != "" {
+			c2 := *cp
+			c2.OnlyK = k
+			sc.Params, _ = json.Marshal(c2)
+			return violation("retry-after-disk-error-not-persisted", "", "victim %s: its mutating disk operation %d of %d failed with EIO, the same call was then repeated and reported success, but the file is not the new document (%s)\nhistory: %v", cp.Ops[cp.Victim], k, nmut, e2, cp.Ops[:cp.Victim])
+		}
 		if e1 != "" && e2 != "" {
 			c2 := *cp
 			c2.OnlyK = k
